@@ -28,7 +28,7 @@ def _java(args, env=None, cwd=None, timeout=3600, heap="3g", light=False):
     # light: many short single-worker JVMs side by side (trace batches): serial GC and
     # C1-only JIT cut the start-up CPU from ~9 s to ~2 s per process (measured)
     flags = ["-XX:+UseSerialGC", "-XX:TieredStopAtLevel=1", "-XX:-UsePerfData"] if light else ["-XX:+UseParallelGC"]
-    cmd = ["java"] + flags + ["-Xmx" + heap, "-cp", JAR, "tlc2.TLC"] + args
+    cmd = ["java"] + flags + ["-Xss64m", "-Xmx" + heap, "-cp", JAR, "tlc2.TLC"] + args
     e = dict(os.environ)
     e.pop("JAVA_TOOL_OPTIONS", None)
     if env:
